@@ -132,6 +132,9 @@ package kv
 // ---------------------------------------------------------------------------
 // Opening (properties C11, C12, C13, C14). lists: LIST requests issued so far.
 //@ ghostvar lists int
+//@ ghostvar listNext int        // the continuation token (pointer) of the last LIST page
+//@ ghostvar listTruncated bool   // whether that page was truncated
+//@ ghostvar listedKeys int      // entries delivered by all LIST pages so far
 
 // gob decoding of a version object (encoding/gob is external): only the
 // object behind the pointer changes
@@ -162,7 +165,7 @@ package kv
 // loadRootFromAny: look the version up in each place in turn; (nil, nil, nil)
 // means every place answered NoSuchKey; any other failure is an error.
 //@ func loadRootFromAny
-//@   tolerates call:kv.loadRoot   // NoSuchKey in one place: the next place is tried (absent everywhere = (nil, nil, nil), which every caller tests); any other failure is returned (post@transport-error-is-an-error)
+//@   tolerates call:kv.loadRoot if nosuchkey(e)   // ONLY "no such object" in one place lets the next place be tried (absent everywhere = (nil, nil, nil), which every caller tests); any other failure is returned
 //@   requires forall j int :: imp(0 <= j && j < len(persist), persist[j] != nil)
 //@   modifies nothing
 //@   ensures imp(err != nil, result0 == nil) && imp(result0 != nil, fresh(result0))
@@ -171,19 +174,30 @@ package kv
 //@ func emptyRoot
 //@   modifies nothing
 //@   ensures result.Created != nil && *result.Created == when && len(result.MergeSources) == 0 && result.KVVersion == 1
+//@   ensures mode-follows-the-configuration: result.MergeMode == ite(crdtConfig.CustomMerge != nil, crdt.MergeModeCustom, ite(crdtConfig.OnConflictMerged != nil, crdt.MergeModeCustomLWW, crdt.MergeModeLWW))
 
 // listObjects / listRoots: one LIST request per page, nothing else.
 //@ func listObjects
 //@   requires c != nil
-//@   modifies lists
+//@   modifies lists, listNext, listTruncated, listedKeys
 //@   ensures lists > old(lists) && puts == old(puts) && deletes == old(deletes)
 //@   ensures imp(err != nil, result0 == nil)
+// a listing is complete (C03, C11: no version is missed): the first request
+// carries no token, every further request continues exactly the truncated page
+// before it, the listing ends only at a page that is NOT truncated, and every
+// entry of every page is in the result
+//@   ensures ends-at-the-last-page: imp(err == nil, !listTruncated)
+//@   ensures every-entry-of-every-page: imp(err == nil, len(result0) == listedKeys - old(listedKeys))
+//@   at call:kv.S3Interface.ListObjectsV2WithContext assert first-or-continuation: (lists == old(lists) && input.ContinuationToken == nil) || (lists > old(lists) && listTruncated && int(input.ContinuationToken) == listNext)
 //@   loop 1 invariant lists >= old(lists) && puts == old(puts) && deletes == old(deletes)
+//@   loop 1 invariant input != nil && len(res) == listedKeys - old(listedKeys)
+//@   loop 1 invariant first-or-continuation: (lists == old(lists) && input.ContinuationToken == nil) || (lists > old(lists) && listTruncated && int(input.ContinuationToken) == listNext)
+//@   loop 2 invariant len(res) == listedKeys - old(listedKeys) - len(out.Contents) + rangeindex + 1 && input != nil && listTruncated == *out.IsTruncated && listNext == int(out.NextContinuationToken)
 //@   loop 2 invariant -1 <= rangeindex && rangeindex < len(out.Contents) && lists > old(lists) && puts == old(puts) && deletes == old(deletes) && out != nil && out.IsTruncated != nil
 //@   loop 2 invariant forall j int :: imp(0 <= j && j < len(out.Contents), out.Contents[j] != nil && out.Contents[j].Key != nil)
 //@ func listRoots
 //@   requires S3 != nil && rootPersist != nil
-//@   modifies lists
+//@   modifies lists, listNext, listTruncated, listedKeys
 //@   ensures lists > old(lists) && puts == old(puts) && deletes == old(deletes)
 
 // mergeRoots: fold the listed versions into one tree (random order). With
@@ -191,8 +205,8 @@ package kv
 // version must end up merged: anything unreadable is an error, never a skip.
 // No PUT/DELETE; only *maxVersion (and fresh objects) change.
 //@ func mergeRoots
-//@   tolerates call:crdt.Load   // a non-strict open skips a version that is not there yet (delayed root); strict opens never skip (loop invariant 4)
-//@   tolerates call:crdt.(Tree).Clone   // same: skipped only when skipUnreadable (post@strict)
+//@   tolerates call:crdt.Load if nosuchkey(e) && skipUnreadable   // ONLY a non-strict open, and ONLY a version whose objects are not there (yet), is skipped; a transport error fails the open
+//@   tolerates call:crdt.(Tree).Clone if skipUnreadable   // a non-strict open skips a version it cannot clone; strict opens fail (post@strict)
 //@   requires maxVersion != nil
 //@   requires forall j int :: imp(0 <= j && j < len(persists), persists[j] != nil)
 //@   modifies *maxVersion
@@ -229,7 +243,7 @@ package kv
 
 //@ func Open
 //@   requires S3 != nil && cfg.Storage != nil
-//@   modifies lists, puts, deletes, deleteFailures, lastPutPrefix, lastPutName, lastPutOK, cfg.Storage.Prefix
+//@   modifies lists, listNext, listTruncated, listedKeys, puts, deletes, deleteFailures, lastPutPrefix, lastPutName, lastPutOK, cfg.Storage.Prefix
 //@   ensures readonly-no-write: imp(opts.ReadOnly, puts == old(puts) && deletes == old(deletes))
 //@   ensures named-no-list: imp(opts.OnlyVersions != nil, lists == old(lists))
 //@   ensures named-all-merged: forall j int :: imp(err == nil && opts.OnlyVersions != nil && 0 <= j && j < len(opts.OnlyVersions), has(result0.mergedRoots, opts.OnlyVersions[j]))
@@ -570,7 +584,7 @@ package kv
 //@   modifies nothing
 //@ func (*DB).TraceHistory
 //@   requires dbOK(s) && s.cfg.Storage != nil && cb != nil
-//@   modifies lists, lastPutPrefix, lastPutName, lastPutOK, puts, deletes, deleteFailures, traceCut, s.cfg.Storage.Prefix
+//@   modifies lists, listNext, listTruncated, listedKeys, lastPutPrefix, lastPutName, lastPutOK, puts, deletes, deleteFailures, traceCut, s.cfg.Storage.Prefix
 //@   ensures never-writes: puts == old(puts) && deletes == old(deletes)
 //@   at call:funcvalue assert reported-entry-is-older-than-its-successor: gv.ModEpochNanos < r.cutoff
 //@   at call:funcvalue ghost traceCut = gv.ModEpochNanos
